@@ -23,6 +23,31 @@ func liveHeap() int64 {
 	return int64(ms.HeapAlloc)
 }
 
+// freshKey returns the i-th key of an unbounded family of distinct keys of the
+// kind (used by the sliding-window mix: constant size, ever new keys).
+func freshKey(k Kind, i int) []byte {
+	switch kk := k.(type) {
+	case *numKind:
+		return kk.Canon(rawOf(uint64(i)*2654435761 + 12345))
+	case *compoundKind:
+		var raw []byte
+		for j, f := range kk.fields {
+			v := uint64(i)
+			if j == 0 && len(kk.fields) > 1 {
+				v = uint64(i / 7)
+			}
+			raw = append(raw, f.Canon(rawOf(v*40503+uint64(j)))...)
+		}
+		if kk.hasStr {
+			raw = append(raw, fmt.Sprintf("record-%07d/%c", i, 'a'+byte(i%3))...)
+		}
+		return raw
+	}
+	// byte strings: a long shared segment per record, a leaf and an inner sibling below it
+	tails := []string{"a", "b/x", "b/y"}
+	return []byte(fmt.Sprintf("%08d/customer-record/%s", i/3, tails[i%3]))
+}
+
 type memScenario struct {
 	kind Kind
 	keys [][]byte
@@ -47,6 +72,14 @@ func memLoop(sub Subject, sc *memScenario, absent [][]byte, i0, n int) {
 			mix = []string{"q", "o", "c", "w"}[(i/64)%4]
 		}
 		switch mix {
+		case "f": // sliding window of ever fresh keys at constant size
+			w := 96
+			if i < w {
+				sub.Insert(freshKey(sc.kind, i), i)
+			} else {
+				sub.Delete(freshKey(sc.kind, i-w))
+				sub.Insert(freshKey(sc.kind, i), i)
+			}
 		case "s": // lookups only (hits and misses)
 			if i%3 == 2 {
 				v, _ := sub.Search(absent[i%len(absent)])
@@ -143,7 +176,18 @@ type memResult struct {
 	base, emptied int64
 }
 
-func runMemScenario(sc *memScenario) (memResult, string) {
+func runMemScenario(sc *memScenario) (res memResult, msg string) {
+	defer func() {
+		if r := recover(); r != nil {
+			// the library faulted: not a statement about memory; the scenario is abandoned
+			res, msg = memResult{}, ""
+			stats.aborted()
+		}
+	}()
+	return runMemScenario1(sc)
+}
+
+func runMemScenario1(sc *memScenario) (memResult, string) {
 	var res memResult
 	k := sc.kind
 	// absent probes derived from the key set (not stored)
@@ -204,6 +248,13 @@ func runMemScenario(sc *memScenario) (memResult, string) {
 	for _, key := range sc.keys {
 		sub.Delete(key)
 	}
+	if sc.mix == "f" || sc.mix == "m" {
+		var left [][]byte
+		sub.All()(func(k []byte, _ int) bool { left = append(left, clone(k)); return true })
+		for _, k := range left {
+			sub.Delete(k)
+		}
+	}
 	if sub.Size() != 0 {
 		return res, "" // not this property's business
 	}
@@ -231,13 +282,13 @@ func memTrace(sc *memScenario, msg string) *Trace {
 }
 
 var c17Essential = [][2]string{{"collation", "q"}, {"collation", "s"}, {"collation", "i"}, {"alpha", "c"}, {"unsigned", "c"}, {"signed", "c"},
-	{"float", "c"}, {"compound", "c"}, {"collation", "c"}, {"alpha", "s"}, {"alpha", "w"}, {"compound", "m"}, {"alpha", "i"}, {"collation", "o"}}
+	{"float", "c"}, {"compound", "c"}, {"collation", "c"}, {"alpha", "s"}, {"alpha", "w"}, {"compound", "m"}, {"alpha", "i"}, {"collation", "o"}, {"alpha", "f"}, {"collation", "f"}, {"compound", "f"}, {"unsigned", "f"}}
 
 func TestC17(t *testing.T) {
 	var caseNo atomic.Int32
 	stats.Property = "C17"
 	replayRegressions(t, "C17")
-	stats.Rule = "rapid draws a scenario: tree kind, key set (50..2000 keys from the kind's universe) and operation mix (s: lookups only, hits and misses; i: sequences and extremes only; q: every read-only method incl. absent probes and failed deletes; o: overwrites; c: delete/re-insert churn; w: grow/shrink waves; m: mixed); the loop runs 8N operations and the live heap after two forced GCs is sampled at 0, N, 2N, 4N and 8N operations (violation: total growth > 1 MiB with growth > 256 KiB in at least two of the four intervals), then all keys are deleted and the tree may retain at most 256 KiB; " +
+	stats.Rule = "rapid draws a scenario: tree kind, key set (50..2000 keys from the kind's universe) and operation mix (s: lookups only, hits and misses; i: sequences and extremes only; q: every read-only method incl. absent probes and failed deletes; o: overwrites; c: delete/re-insert churn of a fixed key set; f: sliding window of ever fresh keys at constant size; w: grow/shrink waves; m: mixed); the loop runs 8N operations and the live heap after two forced GCs is sampled at 0, N, 2N, 4N and 8N operations (violation: total growth > 1 MiB with growth > 256 KiB in at least two of the four intervals), then all keys are deleted and the tree may retain at most 256 KiB; " +
 		"non-trivial = the tree was non-empty during the loop and all 8N operations executed; distinct by (kind, mix, key-set hash)"
 	n := 100000
 	if *flagTier == "thorough" {
@@ -253,7 +304,7 @@ func TestC17(t *testing.T) {
 			mix = c17Essential[i][1]
 		} else {
 			kind = drawKind(rt, append([]string{"collation", "collation"}, allFamilies...))
-			mix = pick(rt, []string{"q", "s", "s", "i", "o", "c", "c", "w", "m"}, "mix")
+			mix = pick(rt, []string{"q", "s", "s", "i", "o", "c", "c", "w", "m", "f", "f"}, "mix")
 		}
 		u := drawUniverse(rt, kind, nil)
 		want := pick(rt, []int{50, 200, 600, 2000}, "nkeys")
